@@ -51,7 +51,7 @@ class Prop:
             "result that needed >= 2 terms; distinct = distinct sha256 of the event log")
     probes = ["k2", "k3", "k4", "herm_adjpair", "herm_sandwich", "herm_nonadjoint", "domain_float", "domain_tracer",
               "result_one", "result_zero", "result_value", "multi_term_result", "discipline_checked", "highest_order_checked", "highest_order_truth_checked",
-              "op_array", "op_view", "repeat_cached", "op_mul", "op_rmul", "known0_pattern", "view_factor", "known_finding_signature_hits"]
+              "op_array", "op_view", "repeat_cached", "op_mul", "op_rmul", "known0_pattern", "view_factor", "twin_product", "known_finding_signature_hits"]
     components_real = ["pymablock.series.cauchy_dot_product, product_by_order, BlockSeries"]
     components_stub = ["factor series eval callbacks (simulator-owned tables, call log)", "element multiplication wrapper (logging)",
                        "tracer element type (exact free *-algebra)"]
@@ -126,6 +126,9 @@ class Prop:
             if r.random() < 0.12 and ops[-1][0] in ("get", "sl"):
                 ops.append(list(ops[-1]))
         case["ops"] = ops
+        if domain == "tracer" and herm == "none" and r.random() < 0.3:
+            pick = lambda: [r.randrange(dims[0]), r.randrange(dims[-1]), list(r.choice(orders))]  # noqa: E731
+            case["twin"] = {"first": r.random() < 0.5, "pre": [pick() for _ in range(3)], "post": [pick() for _ in range(6)]}
         return case
 
     @staticmethod
@@ -283,7 +286,18 @@ class Prop:
             return base(a, b)
 
         declared = herm != "none"
+        # a second product over the *same factor objects* with the opposite operator, alive at the same time
+        twin = case.get("twin")
+        base2 = (lambda a, b: b @ a) if case["op"] != "rmul" else _op.matmul  # noqa: E731
+        P2 = None
+        if twin and twin.get("first") and case["domain"] == "tracer":
+            P2 = cauchy_dot_product(*factors, operator=base2)
+            for (i, j, n) in twin["pre"]:
+                if i < dims[0] and j < dims[-1]:
+                    P2[(i, j, *n)]
         P = cauchy_dot_product(*factors, operator=oper, hermitian=declared)
+        if twin and P2 is None and case["domain"] == "tracer":
+            P2 = cauchy_dot_product(*factors, operator=base2)
         violation = None
 
         def fail(cls, detail, info=None):
@@ -481,6 +495,25 @@ class Prop:
                     fail("pending-left", f"op#{opi} {op}: in-flight marker left in {s.name}")
                 sig ^= hash((si, frozenset(s._data)))
             states.append(format(sig & 0xFFFFFFFFFFFF, "x"))
+        if P2 is not None and violation is None and not vf:
+            bump("twin_product")
+            saved_base = base
+            base = base2  # the reference sum of the twin uses the twin's operator
+            try:
+                for (i, j, n) in twin["post"]:
+                    if i >= dims[0] or j >= dims[-1] or sum(n) > case["cap"]:
+                        continue
+                    got = P2[(i, j, *n)]
+                    want, _ = ref(i, j, tuple(n))
+                    if isinstance(want, tuple) and want and want[0] == "one+":
+                        continue
+                    if not same(norm(got), norm(want), stats):
+                        fail("value-mismatch-second-product", f"a second product over the same factor objects with another operator: element {(i, j, *n)} = {self._show(got)}, reference Cauchy sum = {self._show(want)}",
+                             {"i": i, "j": j, "n": list(n)})
+                        break
+            except Exception as e:
+                fail("unexpected-raise", f"second product over the same factors: {type(e).__name__}: {e}")
+            base = saved_base
         for k, v in stats.items():
             bump(k, v)
         return {"violation": violation, "digest": batch.digest_of(events), "events": len(events),
